@@ -600,6 +600,47 @@ var largePrograms = []program{
 	{Name: "for-in-large-array-index", Src: "a := range(0, 5000)\nb := []\nfor i, v in a { b = append(b, v + i) }\nn := len(b)\n"},
 }
 
+// slowNativeCall: the context is cancelled while the VM goroutine sits in a host function that takes
+// 150 ms. How long the call takes to return is outside the property's bound, but when it returns
+// the VM goroutine must be finished ("no goroutine is left behind"): the host function must have
+// completed, and the goroutine count must be back at once.
+func slowNativeCall() {
+	for _, src := range []string{"x := slow(1)\ny := 2\n", "for i := 0; i < 3; i++ { x := slow(i) }\n"} {
+		var inside, done int32
+		s := tengo.NewScript([]byte(src))
+		_ = s.Add("slow", &tengo.UserFunction{Name: "slow", Value: func(args ...tengo.Object) (tengo.Object, error) {
+			atomic.StoreInt32(&inside, 1)
+			time.Sleep(150 * time.Millisecond)
+			atomic.StoreInt32(&inside, 0)
+			atomic.AddInt32(&done, 1)
+			return tengo.UndefinedValue, nil
+		}})
+		c, err := s.Compile()
+		if err != nil {
+			fatal(err)
+		}
+		baseline := runtime.NumGoroutine()
+		ctx, cancel := context.WithCancel(context.Background())
+		go func() {
+			for atomic.LoadInt32(&inside) == 0 {
+				time.Sleep(time.Millisecond)
+			}
+			cancel()
+		}()
+		rerr := c.RunContext(ctx)
+		stillInside := atomic.LoadInt32(&inside) == 1
+		extra := runtime.NumGoroutine() - baseline
+		res.Count("slow-native-call", src, true)
+		in := caseInput{Program: "slow-native-call", Source: src, Cancel: "during the host call"}
+		if stillInside {
+			violate("goroutine-left-behind", in, fmt.Sprintf("RunContext returned (%v) while the VM goroutine was still inside the host function; %d goroutine(s) above baseline", rerr, extra),
+				"RunContext returns only after the VM goroutine has finished", "flag set by the host function + runtime.NumGoroutine")
+		}
+		cancel()
+		time.Sleep(200 * time.Millisecond) // let a leaked goroutine finish before the next scenario
+	}
+}
+
 func genProfile(r *lib.RNG) lib.Profile {
 	p := lib.DefaultProfile()
 	p.MaxStmts = 4 + r.Intn(6)
@@ -649,6 +690,7 @@ func main() {
 		g := lib.NewGen(r, genProfile(r))
 		checkProgram(program{Name: fmt.Sprintf("gen-%d", i), Src: g.Program()}, r, maxEx, samples)
 	}
+	slowNativeCall()
 	lib.RunProbes(res, "C07", f.Known)
 	res.Extra = map[string]interface{}{"latency_bound_ms": latencyBound.Milliseconds(), "max_latency_us_observed": maxLatency.Microseconds(), "exhaustive_k_up_to": maxEx, "tainted_by_hang": tainted}
 	res.Write(f.Out)
